@@ -40,7 +40,15 @@ def expand_user(possible_path, shell_escape):
     something_changed = False
 
     # split will change the type of quotes, which may cause issues with shell variables
-    parts = shlex.split(possible_path)
+    try:
+        parts = shlex.split(possible_path)
+    except ValueError:
+        if not isinstance(possible_path, str):
+            raise
+        # not a sequence of shell words, for instance the value of an environment
+        # variable with a lone quote: there is nothing to split, only a leading ~
+        # can be expanded
+        return os.path.expanduser(possible_path)
     for i, part in enumerate(parts):
         expanded = os.path.expanduser(part)
         if "~" in expanded and ":" in expanded:
